@@ -82,6 +82,9 @@ def make_init(rng, K, N, lead=(), style='positive'):
 
 
 # ----------------------------------------------------------------------------- options
+_SALSCALE = [0]
+
+
 def sample_options(rng, name, K, N, lead, with_aligner=False):
     """trainer keyword options drawn over everything the property quantifies over"""
     o = {}
@@ -103,7 +106,8 @@ def sample_options(rng, name, K, N, lead, with_aligner=False):
             s = np.floor(rng.uniform(1, 5, size=(*lead, N)))
         elif rng.random() < 0.35:
             # any non-negative saliency with positive sum: e.g. signal power of a quiet or loud recording
-            s = s * float(rng.choice([1e-13, 1e-6, 1e4]))
+            _SALSCALE[0] += 1
+            s = s * (1e-13, 1e-6, 1e4)[_SALSCALE[0] % 3]         # stratified: every scale in every run
         o['saliency'] = s
     if name == 'cacgmm':
         o['covariance_norm'] = [
